@@ -18,9 +18,9 @@ Clauses of the property:
 * "predict_freq is non-negative": `freq_nonneg`, `freq_nonneg_neighbors`, `freq_nonneg_mixture`;
 * "predict returns only members of classes_ that minimise the expected cost (the most probable class
   by default)": `predict_min_cost`, `predict_most_probable`, `sklearn_predict_cost_branch`,
-  `sklearn_predict_unfitted_member`, `cost_matrix_by_label` (declared class order vs `cost_matrix_`);
-  false in the unfitted branch of `SklearnClassifier.predict`:
-  `sklearn_unfitted_predict_counterexample`;
+  `sklearn_predict_min_cost` (all three branches of the sklearn wrapper), `cost_matrix_by_label`
+  (declared class order vs `cost_matrix_`); the pre-repair sampling branch is recorded in
+  `Regressions.sklearn_unfitted_predict_counterexample`;
 * "declared classes and no labels ⇒ uniform": `normalizeFreq_uniform_of_zero`, `no_labels_uniform`,
   `prior_only_uniform`, `fallback_uniform`, `divRow_uniform`.
 -/
@@ -378,54 +378,50 @@ theorem predict_most_probable (classes : List γ) (P : List (List α)) (noise : 
   rw [hcost idx hlt, hcost j hj] at this
   linarith
 
-/-- `SklearnClassifier.predict`, cost-matrix branch (`is_fitted_`, `cost_matrix` given): the same
-decoded minimum-cost decision as the base class. -/
-theorem sklearn_predict_cost_branch (classes : List γ) (estPred : List γ) (P C : List (List α))
-    (noise : List (List β)) (choice : List Nat) :
-    sklearnPredict classes true true estPred P C noise choice = predictDecision classes P C noise := by
-  simp [sklearnPredict]
+/-- `SklearnClassifier.predict`, cost-matrix branch and unfitted branch (`is_fitted_ = False`, with or
+without a user cost matrix): the decoded minimum-cost decision of the base class on `predict_proba`. -/
+theorem sklearn_predict_cost_branch (classes : List γ) (fitted hasCost : Bool) (estPred : List γ) (P C : List (List α))
+    (noise : List (List β)) (h : fitted = false ∨ hasCost = true) :
+    sklearnPredict classes fitted hasCost estPred P C noise = predictDecision classes P C noise := by
+  rcases h with h | h
+  · subst h; simp [sklearnPredict]
+  · subst h; simp [sklearnPredict]
 
-/-- default branch: the wrapped estimator's own `predict` is passed through unchanged (so its
-consistency with `predict_proba` is the estimator's, not the wrapper's — outside the theorem). -/
+/-- default branch: the wrapped estimator's own `predict` is passed through unchanged. -/
 theorem sklearn_predict_default_branch (classes : List γ) (estPred : List γ) (P C : List (List α))
-    (noise : List (List β)) (choice : List Nat) :
-    sklearnPredict classes true false estPred P C noise choice = estPred.map some := by
+    (noise : List (List β)) :
+    sklearnPredict classes true false estPred P C noise = estPred.map some := by
   simp [sklearnPredict]
 
-/-- unfitted branch: every returned label is a member of `classes_` as long as numpy's `choice`
-returns indices below `k` (its contract). -/
-theorem sklearn_predict_unfitted_member (classes : List γ) (hasCost : Bool) (estPred : List γ)
-    (P C : List (List α)) (noise : List (List β)) (choice : List Nat) (hc : ∀ i ∈ choice, i < classes.length) :
-    ∀ y ∈ sklearnPredict classes false hasCost estPred P C noise choice, ∃ c, y = some c ∧ c ∈ classes := by
-  intro y hy
-  simp only [sklearnPredict, decode, Bool.false_eq_true, if_false, List.mem_map] at hy
-  obtain ⟨i, hi, rfl⟩ := hy
-  have := hc i hi
-  exact ⟨classes[i], List.getElem?_eq_getElem this, List.getElem_mem this⟩
+/-- **all three branches**: `SklearnClassifier.predict` returns, for every query row, a member of
+`classes_` of minimal expected cost under `predict_proba` — unconditionally in the cost-matrix branch
+and in the unfitted branch; in the default branch (the estimator's own `predict` is passed through)
+exactly when the wrapped estimator's predictions are such minimisers (`hest`: a consistent estimator
+predicts a most probable class; this is the estimator's contract, not the wrapper's). -/
+theorem sklearn_predict_min_cost (classes : List γ) (fitted hasCost : Bool) (estPred : List γ) (P C : List (List α))
+    (noise : List (List β)) (hk : 0 < classes.length) (hn : noise.length = P.length)
+    (hnoise : ∀ nz ∈ noise, nz.length = classes.length ∧ ∀ x ∈ nz, 0 < x)
+    (hest : fitted = true → hasCost = false → ∀ i, i < P.length → ∃ idx c, estPred[i]? = some c ∧
+        idx < classes.length ∧ classes[idx]? = some c ∧
+        ∀ j, j < classes.length → costAt classes.length P C i idx ≤ costAt classes.length P C i j) :
+    ∀ i, i < P.length → ∃ idx c, (sklearnPredict classes fitted hasCost estPred P C noise)[i]? = some (some c) ∧
+      idx < classes.length ∧ classes[idx]? = some c ∧ c ∈ classes ∧
+      ∀ j, j < classes.length → costAt classes.length P C i idx ≤ costAt classes.length P C i j := by
+  intro i hi
+  by_cases hb : fitted = true ∧ hasCost = false
+  · obtain ⟨hf, hc⟩ := hb
+    obtain ⟨idx, c, h1, h2, h3, h4⟩ := hest hf hc i hi
+    subst hf; subst hc
+    refine ⟨idx, c, ?_, h2, h3, List.mem_of_getElem? h3, h4⟩
+    simp [sklearnPredict, h1]
+  · have hb' : fitted = false ∨ hasCost = true := by
+      cases fitted <;> cases hasCost <;> simp_all
+    rw [sklearn_predict_cost_branch classes fitted hasCost estPred P C noise hb']
+    obtain ⟨-, h⟩ := predict_min_cost classes P C noise hk hn hnoise
+    obtain ⟨idx, c, -, h2, h3, h4, h5, h6⟩ := h i hi
+    exact ⟨idx, c, h5, h2, h3, h4, h6⟩
 
 end Predict
-
-/-
-Full statement for `SklearnClassifier.predict` ("returns only members of `classes_` that minimise the
-expected cost") — FALSE of the current code in the unfitted branch, which *samples* a label from the
-label-count distribution instead of minimising:
-
-  theorem sklearn_predict_min_cost_all_branches … (fitted : Bool) … :
-      ∀ i < P.length, ∃ idx, … ∧ ∀ j < k, costAt k P C i idx ≤ costAt k P C i j
-
-It is proved for `fitted = true` with a cost matrix (`sklearn_predict_cost_branch` +
-`predict_min_cost`); the counter-example below is the unfitted branch.
--/
-
-/-- With no labels (`P` uniform; written over `Int` as the doubled row `[1, 1]` — the comparison of
-expected costs is scale invariant) and the cost matrix `[[0,1],[5,0]]`, the draw `choice = [0]`
-(probability 1/2) returns class `10` of expected cost `5/2` although class `20` costs `1/2`. -/
-theorem sklearn_unfitted_predict_counterexample :
-    sklearnPredict (α := Int) (β := Nat) [10, 20] false true ([] : List Nat)
-        [[1, 1]] [[0, 1], [5, 0]] [[1, 1]] [0] = [some 10] ∧
-    expectedCosts (α := Int) 2 [[1, 1]] [[0, 1], [5, 0]] = [[5, 1]] ∧
-    predictDecision (α := Int) (β := Nat) [10, 20] [[1, 1]] [[0, 1], [5, 0]] [[1, 1]] = [some 20] := by
-  decide
 
 /-! ## Ensemble voting (`AnnotatorEnsembleClassifier.predict_proba`) -/
 
@@ -488,3 +484,23 @@ example : predictDecision (α := Int) (β := Nat) [10, 20, 30] [[1, 2, 1]] (zero
   decide
 
 end Ska.C11
+
+/-! ## Regressions: statements about definitions that model code as it was before a repair -/
+
+namespace Ska.C11.Regressions
+open Ska Ska.Classifier
+
+/-- before commit b88b57ad the unfitted branch of `SklearnClassifier.predict` sampled a label from the
+label-count distribution.  With no labels (`P` uniform; written over `Int` as the doubled row `[1, 1]` —
+the comparison of expected costs is scale invariant) and the cost matrix `[[0,1],[5,0]]`, the draw
+`choice = [0]` (probability 1/2) returned class `10` of expected cost `5/2` although class `20` costs
+`1/2`; the current definition returns `20`. -/
+theorem sklearn_unfitted_predict_counterexample :
+    sklearnPredictOld (α := Int) (β := Nat) [10, 20] false true ([] : List Nat)
+        [[1, 1]] [[0, 1], [5, 0]] [[1, 1]] [0] = [some 10] ∧
+    expectedCosts (α := Int) 2 [[1, 1]] [[0, 1], [5, 0]] = [[5, 1]] ∧
+    sklearnPredict (α := Int) (β := Nat) [10, 20] false true ([] : List Nat)
+        [[1, 1]] [[0, 1], [5, 0]] [[1, 1]] = [some 20] := by
+  decide
+
+end Ska.C11.Regressions
